@@ -333,6 +333,8 @@ LIT_CONFIGS = [
     ("68000", "moto", 0, 0, [], []), ("68000", "moto", 0, 1, [], []), ("68000", "moto", 0, 0, ["$hex"], ["hexh", "0bbin"]),
     ("z80", "intel", 0, 0, [], []), ("z80", "intel", 0, 1, [], []), ("z80", "intel", 0, 0, ["binb"], ["0xhex", "x'hex'"]),
     ("sc/mp", "c", 1, 0, [], []), ("sc/mp", "c", 1, 1, [], []), ("sc/mp", "c", 1, 0, ["0oct"], ["0hex"]),
+    # RELAXED ON followed by an INTSYNTAX statement: the relaxed notations must survive the change
+    ("68000", "moto", 0, 1, ["$hex"], ["hexh"]), ("z80", "intel", 0, 1, ["binb"], ["x'hex'"]),
 ]
 
 
